@@ -357,6 +357,13 @@ func (fr *Frame) doCall(in ssa.Instruction, com *ssa.CallCommon, st *State, isGo
 	}
 	var res *Val
 	var err error
+	if t, ok := c.ieeeBuiltin(key, ca.terms); ok {
+		res = &Val{T: []Term{c.sc.define(shortKey(key), t)}}
+		if ev != nil {
+			ev.rets = append(ev.rets, TV{T: res.T[0], Ty: sig.Results().At(0).Type()})
+		}
+		return res, nil
+	}
 	switch {
 	case con != nil && con.NoReturn:
 		fr.setReach(tFalse)
@@ -396,6 +403,28 @@ func (fr *Frame) doCall(in ssa.Instruction, com *ssa.CallCommon, st *State, isGo
 		return &Val{}, nil
 	}
 	return res, nil
+}
+
+// ieeeBuiltin: functions of package math that SMT-LIB's floating point theory defines exactly
+// (only under `note floats ieee`).
+func (c *FuncCtx) ieeeBuiltin(key string, args []Term) (Term, bool) {
+	if !c.sc.ieeeFloats || len(args) != 1 || args[0].Sort != SFloat {
+		return Term{}, false
+	}
+	a := args[0]
+	switch key {
+	case "math.Trunc":
+		return mk(SFloat, "fp.roundToIntegral RTZ", a), true
+	case "math.Floor":
+		return mk(SFloat, "fp.roundToIntegral RTN", a), true
+	case "math.Ceil":
+		return mk(SFloat, "fp.roundToIntegral RTP", a), true
+	case "math.Abs":
+		return mk(SFloat, "fp.abs", a), true
+	case "math.IsNaN":
+		return mk(SBool, "fp.isNaN", a), true
+	}
+	return Term{}, false
 }
 
 func (fr *Frame) setReach(t Term) {
